@@ -358,6 +358,7 @@ class SafeLearner(Learner):
             pred   = pred[:-1] if self._pred_kwargs else pred
 
             if self._pred_format.endswith('*'):
+                if not isinstance(pred,dict): pred = pred[0] #(hint,) is what remains of (hint,kwargs)
                 pred = list(pred.values())[0]
 
             if self._pred_format[:2] == 'PM':
@@ -365,6 +366,7 @@ class SafeLearner(Learner):
                 A, P = list(map(list, zip(*map(self._rng.choicew,actions, pred))))
 
             if self._pred_format[:2] == 'AX':
+                if self._pred_kwargs and not self._pred_format.endswith('*'): pred = pred[0] #(actions,) is what remains of (actions,kwargs)
                 A = pred
                 P = [None]*len(pred)
 
